@@ -1,0 +1,22 @@
+//go:build verif
+
+package server
+
+import "sync/atomic"
+
+var verifYieldFn atomic.Value // func(site string)
+
+// SetVerifYield installs the schedule-perturbation callback of a verification build (nil removes it).
+// The callback is invoked outside of critical sections at lock hand-over points.
+func SetVerifYield(f func(site string)) {
+	if f == nil {
+		f = func(string) {}
+	}
+	verifYieldFn.Store(f)
+}
+
+func verifYield(site string) {
+	if f, ok := verifYieldFn.Load().(func(string)); ok {
+		f(site)
+	}
+}
